@@ -363,6 +363,8 @@ func c04(p *core.Program, r *core.Report) {
 	r.Rule(rule3, "every call in wkbcommon/wkb/ewkb/wkbhex/ewkbhex whose callee returns an error propagates it: the error flows to a return, or its non-nil edge reaches on every path a return/record/panic carrying an error", 100)
 	errflowRule(p, r, rule3, fns, nil)
 
+	sridRules(p, r, "srid-flag-word-agreement")
+
 	// ---- rule 4: reads only through io.ReadFull
 	readerDiscipline(p, r, "reader-discipline")
 
